@@ -44,7 +44,6 @@ FUNCTIONS = [
     ('isotp/protocol.py', 'PDU', 'craft_flow_control_data'),
     ('isotp/protocol.py', 'TransportLayerLogic', '_get_nearest_can_fd_size'),
     ('isotp/protocol.py', 'TransportLayerLogic', '_get_dlc'),
-    ('isotp/protocol.py', 'TransportLayerLogic.Params', 'validate'),
     ('isotp/tools.py', 'Timer', 'is_timed_out'),
     ('isotp/tools.py', 'Timer', 'is_stopped'),
     ('isotp/tools.py', 'Timer', 'stop'),
@@ -175,6 +174,10 @@ def expr(n):
                 return '(.call %s %s)' % (lstr('isinstance_' + t.id), args(n.args[:1]))
             if isinstance(t, ast.Tuple) and sorted(dotted(e) or '?' for e in t.elts) == ['float', 'int']:
                 return '(.call "isinstance_int_float" %s)' % args(n.args[:1])
+            d = dotted(t)
+            if d is not None:
+                # a class of the package: not a builtin of the interpreter, so the call is resolved by the `Meths` of the theorem
+                return '(.call %s %s)' % (lstr('isinstance_' + d.split('.')[-1]), args(n.args[:1]))
             raise Unsupported('isinstance with %s' % ast.dump(t))
         return '(.call %s %s)' % (lstr(f), args(n.args))
     raise Unsupported(type(n).__name__)
@@ -234,6 +237,9 @@ def stmt(n):
             return '(.ite %s %s %s)' % (expr(n.test), block(n.body), block(n.orelse))
         if isinstance(n, ast.Pass):
             return '.pass'
+        if isinstance(n, ast.FunctionDef):
+            # a nested function definition binds a function object to a local name; its body is not part of this function's behaviour
+            return '(.assign %s (.call "__function__" (.cons (.strLit %s) .nil)))' % (lstr(n.name), lstr(n.name))
         raise Unsupported(type(n).__name__)
     except Unsupported as u:
         return '(.unsupported %s)' % lstr('%s at line %d' % (u, getattr(n, 'lineno', 0)))
